@@ -201,12 +201,16 @@ PROPS = {
     "C04": {
         "module": "MantraDex.Properties.C04", "ns": "MantraDex.C04",
         "theorems": ["fee_is_floor_share", "fee_never_more", "computeFees_ok", "net_is_gross_minus_fees", "computeSwap_split",
-                     "performSwap_ok", "swapHandler_messages", "routeHops_chain", "routeHops_fee_msgs"],
+                     "performSwap_ok", "swapHandler_messages", "routeHops_chain", "routeHops_fee_msgs",
+                     "MantraDex.C04Sys.swap_tx_effect"],
+        "extra_modules": ["MantraDex.Properties.C04Sys"],
         "streams": {"swapmath": (4000, 200000), "pm_hist": (60, 3000)},
         "what": "each fee = floor(gross*share) (never more); receiver gets gross minus all fees; perform_swap adds the offer in full and removes "
                 "exactly net+protocol+burn from the ask reserve, nothing else changes; a direct swap emits exactly [send net to receiver][burn]"
                 "[send protocol fee to collector] (each only when non-zero); each route hop consumes exactly the previous hop's output; route fee "
-                "messages only burn or pay the fee collector",
+                "messages only burn or pay the fee collector. THROUGH THE RUNTIME (C04Sys.swap_tx_effect): an accepted Swap transaction changes the "
+                "balance of every account and denom by exactly -offer (trader) +offer (pool manager) -(net+protocol+burn) (pool manager) +net "
+                "(receiver) +protocol fee (collector), one additive formula covering every aliasing of the parties; nobody else's balance changes",
     },
     "C06": {
         "module": "MantraDex.Properties.C06", "ns": "MantraDex.C06",
@@ -242,14 +246,20 @@ PROPS = {
     "C08": {
         "module": "MantraDex.Properties.C08", "ns": "MantraDex.C08",
         "theorems": ["normal_withdraw_requires_unlock", "normal_withdraw_pays_exact", "emergency_after_unlock_is_normal", "close_sets_expiry",
-                     "partial_close_splits", "expand_adds_exact", "others_cannot_touch_position", "create_position_identifier"],
+                     "partial_close_splits", "expand_adds_exact", "others_cannot_touch_position", "create_position_identifier",
+                     "MantraDex.C08Sys.withdraw_after_unlock", "MantraDex.C08Sys.withdraw_before_unlock_refused"],
+        "extra_modules": ["MantraDex.Properties.C08Sys"],
         "streams": {"fm_hist": (80, 4000)},
         "what": "a non-emergency withdrawal is accepted only from the owner, for a closed position whose unlock instant (close time + unlocking "
                 "duration, boundary second included) is reached, pays exactly the recorded amount and deletes the position; an emergency request after "
                 "unlocking is the normal withdrawal; closing fixes expiring_at = now + duration; a partial close splits amount = remainder + part "
                 "(same owner, fresh p-N id); expanding adds exactly the attached amount; messages from anyone who is neither the owner nor the pool "
-                "manager leave a position untouched (given the next generated id is free); new ids are u-<given> / p-<counter+1> and never existing ones",
-        "assumptions": ["frame theorem assumes the next generated identifier is unused (guaranteed by the identifier scheme in reachable states; validated by the history stream)"],
+                "manager leave a position untouched (given the next generated id is free); new ids are u-<given> / p-<counter+1> and never existing ones. "
+                "THROUGH THE RUNTIME (C08Sys): in every state satisfying the proved custody invariant FmInv, the owner's plain withdrawal of a closed, "
+                "unlocked position IS accepted, pays exactly the recorded amount from the farm manager to the owner, deletes the position and moves "
+                "nothing else (withdraw_after_unlock); before the unlock instant a plain withdrawal by anybody leaves the world unchanged "
+                "(withdraw_before_unlock_refused)",
+        "assumptions": ["the frame theorem's freshness assumption on generated identifiers is part of the proved reachable-state invariant C05Sys.FmInv (autoFresh)"],
     },
 
     "C05": {
